@@ -10,7 +10,11 @@ THEOREMS = ["C08.dispatch_total", "C08.shipped_load_ok", "C08.shipped_star_only"
             "C08.generate_error_sites", "C08.generate_structural_excluded", "C08.generate_total_partial", "C08.numeric_site_fails",
             "C08.generate_total_of_numericOK", "C08.quantize_total_partial", "C08.quantize_total_of_numericOK", "C08.stats_of_calibration",
             "C08.resolved_registered", "C08.shipped_resolution", "C08.shipped_coverage", "C08.registry_kinds", "C08.Inst.hyp",
-            "C08.Inst.unshared", "C08.Inst.numericOK", "C08.Inst.quantize_runs", "C08.Inst.big_numeric_site", "C08.Inst.st_shipped"]
+            "C08.Inst.unshared", "C08.Inst.numericOK", "C08.Inst.quantize_runs", "C08.Inst.big_numeric_site", "C08.Inst.st_shipped",
+            # C08d: the numeric sites are impossible on bounded data: quantize_total has no remaining disjunct
+            "C08.zpScale1_total", "C08.zpScale_total", "C08.uniformQuantize_total", "C08.quantize_own_total", "C08.quantizeBias_total",
+            "C08.f16_total", "C08.numericOK_of_bounded", "C08.generate_total", "C08.quantize_total", "C08.ema_ordered",
+            "C08.stats_bounded_of_calibration", "C08.Inst.bounded", "C08.InstB.quantize_ok"]
 
 
 def gen(rng, i):
@@ -29,7 +33,12 @@ def run(ctx):
     ctx.explanation = ("Proved: the materialisation dispatch of the model covers every registered (algorithm, op, function) of the live registry, "
                        "shipped recipes load, consist of '*' rules only and carry configs the policy accepts for at least one op. The totality "
                        "theorem proper (no raise site reachable) is not proved; rejection-freedom is established by execution on generated models.")
-    ctx.explanation = ("PARTIAL at the numeric sites only. Proved (QProps/C08c): every way Mat.generate can fail is one of an explicit inventory of "
+    ctx.explanation = ("C08d closes the numeric half: under Hyp, Unshared and Bounded (constants and statistics within 2^63 in float32/64 with all-ones "
+                       "statistic shapes -- which calibrate() delivers on float32 contents: stats_bounded_of_calibration --, biases of the "
+                       "channel count, float16-cast weights within 65504, shape-compatible concatenation constants) no numeric site is "
+                       "reachable (numericOK_of_bounded), so quantizePure RETURNS a well-formed model (quantize_total); each clause of Bounded "
+                       "is shown necessary by a closed run; the 1e-4 range floor keeps every scale >= 2^-30, so scale products never underflow. "
+                       "Proved earlier (QProps/C08c): every way Mat.generate can fail is one of an explicit inventory of "
                        "sites (generate_error_sites); under Hyp (normal form, float model, unique names, statistics given and complete -- which "
                        "calibrate() delivers: stats_of_calibration --, no skip_checks rule, operator shapes as the converter emits them) and "
                        "Unshared (no tied constants, C08's reading of its quantifier) every STRUCTURAL site is impossible "
@@ -40,7 +49,7 @@ def run(ctx):
                        "function with a legal mode for every operator name (shipped_resolution, shipped_coverage, kernel evaluation over the "
                        "regenerated tables). Not proved: that the numeric primitives succeed on finite, ordered data (NumericOK stays a "
                        "hypothesis); covered by execution over all shipped recipes x generated models.")
-    common.proof_side(ctx, THEOREMS, modules=["QProps.C08", "QProps.C08b", "QProps.C08c"])
+    common.proof_side(ctx, THEOREMS, modules=["QProps.C08", "QProps.C08b", "QProps.C08c", "QProps.C08d"])
     drv = common.Driver()
 
     def per_case(case, res):
